@@ -19,7 +19,7 @@ func init() { checks["C18"] = c18 }
 func c18(args []string) {
 	c := chk.New("C18", "exploration", args)
 	c.Build(false)
-	c.Rule("src(n) -> 1 or 2 upstream processes (random task durations) -> recorder -> StreamToSubStream -> task with {i:x|join:SEP}: sub-stream lengths {0,1,2,B,B+1,3B} for SCIPIPE_BUFSIZE B in {1,3} (thorough also 128), separators {' ', ',', ':', ' -I '}, maxConcurrentTasks in {1,4}; without modifiers the task command is vcmd, which opens every path it was given from its working directory; with modifiers (%.txt, s/x/y/, basename) the command is an echo and only the strings are judged; oracle: exactly one start event of the joining process, the member paths in its argv == the sequence the recorder in front of the sub-stream saw (arrival order), all readable, the recorded command contains them joined by exactly SEP with modifiers applied to each member, audit Upstream keys == member paths and each names the upstream task; plus close storms: 2-8 one-file sources fan into a StreamToSubStream, built and run 1500-3000 times inside one child process (hooks passive in most of them) - exactly one sub-stream must come out per run. distinct_nontrivial = distinct (length, B, separator, modifiers, fan-in, config) cases")
+	c.Rule("src(n) -> 1 or 2 upstream processes (random task durations) -> recorder -> StreamToSubStream -> task with {i:x|join:SEP}: sub-stream lengths {0,1,2,B,B+1,3B} for SCIPIPE_BUFSIZE B in {1,3} (thorough also 128), separators {' ', ',', ':', ' -I '} (and, printed by printf, separators containing a newline; the same joined port used three times in one command with different modifiers), maxConcurrentTasks in {1,4}; without modifiers the task command is vcmd, which opens every path it was given from its working directory; with modifiers (%.txt, s/x/y/, basename) the command is an echo and only the strings are judged; oracle: exactly one start event of the joining process, the member paths in its argv == the sequence the recorder in front of the sub-stream saw (arrival order), all readable, the recorded command contains them joined by exactly SEP with modifiers applied to each member, audit Upstream keys == member paths and each names the upstream task; plus close storms: 2-8 one-file sources fan into a StreamToSubStream, built and run 1500-3000 times inside one child process (hooks passive in most of them) - exactly one sub-stream must come out per run. distinct_nontrivial = distinct (length, B, separator, modifiers, fan-in, config) cases")
 	c.Assume("with two upstream processes the arrival order is whatever the recorder saw; it is not predicted")
 	rng := c.Rand("c18")
 	type job struct {
@@ -220,6 +220,7 @@ func c18(args []string) {
 		}
 	})
 	c18two(c)
+	c18corners(c)
 	closeStorm(c, "substream")
 	c.Finish()
 }
@@ -337,4 +338,98 @@ func clipList(l []string, n int) []string {
 		return append(append([]string{}, l[:n]...), fmt.Sprintf("... (%d)", len(l)))
 	}
 	return l
+}
+
+// c18corners: separators that contain a newline (a file list, one path per line) and the same joined in-port
+// used twice in one command with different modifiers.
+func c18corners(c *chk.Ctx) {
+	type job struct {
+		n    int
+		kind string
+		b    int
+	}
+	var jobs []*job
+	for _, n := range []int{1, 3, 5} {
+		for _, kind := range []string{"newline", "newline-space", "twice"} {
+			jobs = append(jobs, &job{n, kind, []int{1, 3}[n%2]})
+		}
+	}
+	run.Parallel(len(jobs), func(i int) {
+		j := jobs[i]
+		root := c.CaseDir()
+		defer c.Drop(root)
+		s := &spec.Spec{Name: "joincorner", MaxTasks: 4, Sources: map[string]string{}}
+		src := &spec.Proc{Name: "src", Kind: spec.KFileSource}
+		for k := 0; k < j.n; k++ {
+			f := fmt.Sprintf("q%02d.txt", k)
+			src.Files = append(src.Files, f)
+			s.Sources[f] = f + "\n"
+		}
+		s.Procs = append(s.Procs, src, &spec.Proc{Name: "U", Kind: spec.KCmd, Cmd: spec.BuildCmd("U", []spec.PortDecl{{Name: "in"}}, []spec.PortDecl{{Name: "out"}}, nil, nil, nil),
+			Outs: []*spec.Out{{Port: "out", Pattern: "ud/{i:in|basename}.U.out"}}},
+			&spec.Proc{Name: "REC", Kind: spec.KRecorder}, &spec.Proc{Name: "SS", Kind: spec.KSubStream})
+		jn := &spec.Proc{Name: "JN", Kind: spec.KCmd, Outs: []*spec.Out{{Port: "out", Pattern: "joined.out"}}}
+		var sep string
+		switch j.kind {
+		case "newline":
+			sep = "\n"
+			jn.Cmd = "printf '%s\\n' \"{i:in|join:\n}\" > {o:out}"
+		case "newline-space":
+			sep = " \n"
+			jn.Cmd = "printf '%s\\n' \"{i:in|join: \n}\" > {o:out}"
+		case "twice":
+			sep = ","
+			jn.Cmd = "echo J:{i:in|join:,}:J K:{i:in|join:,|s/U/V/}:K L:{i:in|join:,|basename}:L > {o:out}"
+		}
+		s.Procs = append(s.Procs, jn)
+		s.Conns = append(s.Conns, &spec.Conn{From: "src.out", To: "U.in"}, &spec.Conn{From: "U.out", To: "REC.in"}, &spec.Conn{From: "REC.out", To: "SS.in"}, &spec.Conn{From: "SS.substream", To: "JN.in"})
+		desc := map[string]interface{}{"corner": j.kind, "length": j.n, "bufsize": j.b, "spec": s}
+		res := execSpec(c, root, s, Cfg{Buf: j.b, Procs: 2}, nil, false, 0)
+		if res.Hang != "" {
+			if strings.HasPrefix(res.Hang, "deadlock") {
+				c.Violation("join-hang", fmt.Sprintf("%s, %d members: %s", j.kind, j.n, res.Hang), desc)
+			} else {
+				c.Inconclusive(res.Hang)
+			}
+			return
+		}
+		if res.Exit != 0 || !res.Returned {
+			c.Violation("join-run-failed", fmt.Sprintf("%s, %d members: exit %d: %s", j.kind, j.n, res.Exit, tail(res.Output(), 500)), desc)
+			return
+		}
+		arrived := recPaths(mon.Index(res.Trace), "REC")
+		var plain, subst, base []string
+		for _, m := range arrived {
+			plain = append(plain, "../"+m)
+			subst = append(subst, "../"+strings.Replace(m, "U", "V", 1))
+			base = append(base, "../"+filepath.Base(m))
+		}
+		want := strings.Join(plain, sep) + "\n"
+		if j.kind == "twice" {
+			want = "J:" + strings.Join(plain, ",") + ":J K:" + strings.Join(subst, ",") + ":K L:" + strings.Join(base, ",") + ":L\n"
+		}
+		b, _ := os.ReadFile(filepath.Join(res.Wd, "joined.out"))
+		if string(b) != want || len(arrived) != j.n {
+			c.Violation("joined-string", fmt.Sprintf("%s, %d members: the command printed %q, expected %q", j.kind, j.n, clip(string(b), 300), clip(want, 300)), desc)
+			return
+		}
+		a, err := mon.LoadAudit(filepath.Join(res.Wd, "joined.out.audit.json"))
+		if err != nil {
+			c.Violation("audit-file-unreadable", err.Error(), desc)
+			return
+		}
+		var ks []string
+		for k := range a.Upstream {
+			ks = append(ks, k)
+		}
+		sort.Strings(ks)
+		as := append([]string{}, arrived...)
+		sort.Strings(as)
+		if strings.Join(ks, "\x00") != strings.Join(as, "\x00") {
+			c.Violation("joined-audit-upstream-keys", fmt.Sprintf("%s: audit Upstream keys %v, sub-stream members %v", j.kind, ks, as), desc)
+			return
+		}
+		c.Count("members_compared", j.n)
+		c.Nontrivial(fmt.Sprintf("corner|%s|%d|%d", j.kind, j.n, j.b))
+	})
 }
